@@ -4,6 +4,7 @@ import KmipModel.Spec
 import KmipModel.Expect
 import KmipGen.Consts
 import KmipGen.Schema
+import Driver.SessionIO
 /-
   kvdriver: one request per input line, one reply per output line.  Runs the executable model and the
   executable specifications on the inputs the Go harness also gives to the real code.
@@ -96,6 +97,7 @@ def step (line : String) : String :=
       | some (v, n) => s!"ok {n} " ++ showVal v
       | none => "none"
     | _, _ => "bad-op"
+  | "session" :: rest => runSession rest
   | ["c18"] => c18Report
   | ["c19"] => c19Report
   | _ => "bad-op"
